@@ -5,8 +5,16 @@ pid=sys.argv[1]; tier=sys.argv[2]; sel=[int(x) for x in sys.argv[3].split(',')] 
 orig=checks.CHECKS[pid]['jobs']
 if sel is not None:
     checks.CHECKS[pid]['jobs']=lambda t:[j for k,j in enumerate(orig(t)) if k in sel]
+import shutil,os
+EV='/verif/evidence/%s.json'%pid
+EVBAK=open(EV).read() if os.path.exists(EV) else None
 rc=vcheck.run_check(pid,tier)
 d=json.load(open('/verif/out/gen/%s/result.json'%pid))
 for j in d['jobs']:
     print(j['id'],j['params'],'paths',j['paths'],'q',j['queries'],'solver',round(j['solver_s'],1),'wall',round(j['wall_s'],1),'obl',j['obligations'],'reg',j['regions'],j['region_aborts'],'depth',j['max_depth'], j['assert_checks'], j['undecided'])
 print('rc',rc)
+# debugging runs must not replace the evidence of the registered command
+if EVBAK is not None:
+    open(EV,'w').write(EVBAK)
+elif os.path.exists(EV):
+    os.remove(EV)
